@@ -883,6 +883,46 @@ def _t_local_snapshots(srcs):
                     fn.body.insert(k, ast.copy_location(st_, fn.body[min(k, len(fn.body) - 1)]))
 
 
+def _t_reorder_defs(srcs):
+    """definitions in another order: the undecorated module-level functions of each module permuted among their own slots (reverse alphabetical),
+    the undecorated methods of each class likewise"""
+    import ast
+
+    def permute(body):
+        slots = [i for i, n in enumerate(body) if isinstance(n, ast.FunctionDef) and not n.decorator_list]
+        fns = sorted((body[i] for i in slots), key=lambda n: n.name, reverse=True)
+        for i, fn in zip(slots, fns):
+            body[i] = fn
+    for pth, tree in srcs.items():
+        permute(tree.body)
+        for n in tree.body:
+            if isinstance(n, ast.ClassDef):
+                permute(n.body)
+
+
+def _t_validate_inputs(srcs):
+    """an input check at the top of every module-level utils function with a matrix parameter A / P / G / pdag:
+    `if A.ndim != 2 or A.shape[0] != A.shape[1]: raise ValueError(...)` - every input the properties speak about passes it"""
+    import ast
+    MATS = {"A", "P", "G", "pdag", "cpdag"}
+    for pth, tree in srcs.items():
+        if not pth.endswith("utils.py"):
+            continue
+        for fn in tree.body:
+            if not isinstance(fn, ast.FunctionDef) or any(isinstance(x, (ast.Yield, ast.YieldFrom)) for x in ast.walk(fn)):
+                continue
+            args = fn.args
+            nodef = [a.arg for a in args.args[:len(args.args) - len(args.defaults)]]
+            k = 1 if fn.body and isinstance(fn.body[0], ast.Expr) and isinstance(fn.body[0].value, ast.Constant) and isinstance(fn.body[0].value.value, str) else 0
+            for nm in nodef:
+                if nm in MATS and (fn.name, nm) not in (("separates", "A"), ("allclose", "A"), ("nonzero", "A"), ("member", "A")):
+                    st_ = ast.parse("if %s.ndim != 2 or %s.shape[0] != %s.shape[1]:\n    raise ValueError('%s must be a square matrix')\n" % (nm, nm, nm, nm)).body[0]
+                    for x in ast.walk(st_):
+                        ast.copy_location(x, fn.body[min(k, len(fn.body) - 1)]) if hasattr(x, "lineno") or isinstance(x, (ast.expr, ast.stmt)) else None
+                    fn.body.insert(k, st_)
+                    break
+
+
 def _t_np_operators(srcs):
     """operators spelled as numpy functions where that is the same for every operand the code can see: a @ b -> np.matmul(a, b), np.eye(n) -> np.identity(n)"""
     import ast
@@ -1166,7 +1206,7 @@ def _t_accept_lists(srcs):
                         n.body[k:k] = ast.parse("if not isinstance(%s, np.ndarray):\n    %s = np.array(%s)\n" % (a.arg, a.arg, a.arg)).body
 
 
-TREE_TRANSFORMS = {"@coerce_params": _t_coerce_params, "@accept_lists": _t_accept_lists, "@early_exit": _t_early_exit, "@numpy_alias": _t_numpy_alias, "@kwargs_calls": _t_kwargs_calls, "@strip_docs_annotate": _t_strip_docs_annotate, "@logging": _t_logging, "@traced": _t_traced, "@kwonly": _t_kwonly, "@extra_param": _t_extra_param, "@try_reraise": _t_try_reraise, "@np_functions": _t_np_functions, "@small_idioms": _t_small_idioms, "@flip_comparisons": _t_flip_comparisons, "@else_after_exit": _t_else_after_exit, "@comp_to_loop": _t_comp_to_loop, "@logic_spellings": _t_logic_spellings, "@local_aliases": _t_local_aliases, "@method_spellings": _t_method_spellings, "@statement_spellings": _t_statement_spellings, "@loop_spellings": _t_loop_spellings, "@import_styles": _t_import_styles, "@np_constructors": _t_np_constructors, "@literal_spellings": _t_literal_spellings, "@arith_spellings": _t_arith_spellings, "@defensive_copies": _t_defensive_copies, "@local_snapshots": _t_local_snapshots, "@np_operators": _t_np_operators, "@private_module": _t_private_module, "@swap_branches": _t_swap_branches, "@name_conditions": _t_name_conditions, "@ternary_to_if": _t_ternary_to_if,
+TREE_TRANSFORMS = {"@coerce_params": _t_coerce_params, "@accept_lists": _t_accept_lists, "@early_exit": _t_early_exit, "@numpy_alias": _t_numpy_alias, "@kwargs_calls": _t_kwargs_calls, "@strip_docs_annotate": _t_strip_docs_annotate, "@logging": _t_logging, "@traced": _t_traced, "@kwonly": _t_kwonly, "@extra_param": _t_extra_param, "@try_reraise": _t_try_reraise, "@np_functions": _t_np_functions, "@small_idioms": _t_small_idioms, "@flip_comparisons": _t_flip_comparisons, "@else_after_exit": _t_else_after_exit, "@comp_to_loop": _t_comp_to_loop, "@logic_spellings": _t_logic_spellings, "@local_aliases": _t_local_aliases, "@method_spellings": _t_method_spellings, "@statement_spellings": _t_statement_spellings, "@loop_spellings": _t_loop_spellings, "@import_styles": _t_import_styles, "@np_constructors": _t_np_constructors, "@literal_spellings": _t_literal_spellings, "@arith_spellings": _t_arith_spellings, "@defensive_copies": _t_defensive_copies, "@local_snapshots": _t_local_snapshots, "@reorder_defs": _t_reorder_defs, "@validate_inputs": _t_validate_inputs, "@np_operators": _t_np_operators, "@private_module": _t_private_module, "@swap_branches": _t_swap_branches, "@name_conditions": _t_name_conditions, "@ternary_to_if": _t_ternary_to_if,
                    "@shim": _t_shim}
 
 
